@@ -166,6 +166,9 @@ def prefix_view(t):
         e = d.get("end")
         if isinstance(e, tuple) and len(e) == 3 and e[0] == "field" and e[2] == "0":
             e = e[1]
+        if isinstance(e, tuple) and len(e) == 2 and e[0] in ("payload", "try") and isinstance(e[1], tuple) and len(e[1]) == 4 and e[1][0] == "call" and e[1][1].endswith("::checked_add") and len(e[1][2]) == 2:
+            # `a.checked_add(n)` on its Some side is a + n
+            e = ("binop", "Add", e[1][2][0], e[1][2][1])
         if a is not None and isinstance(e, tuple) and len(e) == 4 and e[0] == "binop" and e[1].startswith("Add"):
             for p_, q_ in ((e[2], e[3]), (e[3], e[2])):
                 if _const(p_) == a:
